@@ -457,6 +457,7 @@ func dnsScenario(s *verifsim.Sim) {
 	case dnsModeC09:
 		dnsScenarioC09(w)
 	case dnsModeC08:
+		s.TrackFrames = true // the refresh rule asks whether an earlier refresh is still inside its forwarder call
 		dnsScenarioC08(w)
 	case dnsModeC07:
 		dnsScenarioC07(w)
